@@ -24,7 +24,8 @@ InitCard(a41) == [pw |-> FALSE, idle |-> FALSE, ready |-> FALSE, v2ok |-> FALSE,
 IdleBit(c) == IF c.idle THEN 1 ELSE 0
 
 \* block number addressed by a command argument given as two 16-bit halves; -1 = misaligned
-ArgBlock(kind, ah, al) == IF kind = "sdhc" THEN ah * 65536 + al
+\* (block numbers from 2^31 on are beyond every capacity modelled here; -1 keeps the arithmetic within TLC's integers)
+ArgBlock(kind, ah, al) == IF kind = "sdhc" THEN (IF ah >= 32768 THEN -1 ELSE ah * 65536 + al)
                           ELSE IF al % 512 = 0 THEN ah * 128 + al \div 512 ELSE -1
 
 CanLeaveIdle(c, kind, ah) ==
